@@ -2,6 +2,7 @@ package props
 
 import (
 	"bytes"
+	"compress/gzip"
 	"fmt"
 	"go/ast"
 	"go/importer"
@@ -92,6 +93,17 @@ func upstreamStart() {
 				}
 			}
 			w.Header().Set("Content-Type", "text/plain; charset=utf-8")
+			if strings.Contains(r.Header.Get("Accept-Encoding"), "gzip") && len(r.URL.Path)%3 == 0 {
+				// a host that compresses when asked: Content-Length is the compressed size
+				var zb bytes.Buffer
+				zw := gzip.NewWriter(&zb)
+				zw.Write(b)
+				zw.Close()
+				w.Header().Set("Content-Encoding", "gzip")
+				w.Header().Set("Content-Length", strconv.Itoa(zb.Len()))
+				w.Write(zb.Bytes())
+				return
+			}
 			if len(r.URL.Path)%2 == 0 {
 				// the way static file hosts answer: Content-Length framing (the final read carries the
 				// data together with io.EOF), a Last-Modified date in the past, conditional requests honoured
